@@ -162,6 +162,8 @@ func (c *bCache[K, V]) setDeadline(k K, v V, d int64) {
 
 	if d != 0 {
 		c.visit.AddB(float64(d), k)
+	} else {
+		c.visit.Remove(k)
 	}
 	c.member.Put(k, Iterator[V]{
 		Value:  v,
